@@ -177,8 +177,8 @@ def run(ctx: Ctx) -> None:
 
         # ---- (2) spec -> code: histories from the state graph
         def key(s, lab, d):
-            return (lab, s["cfg"]["cap"], s["cfg"]["world"], len(s["mem"]), len(s["held"]), d["st"]["io"] != -1,
-                    len(d["mem"]), d["st"]["pc"])
+            return (lab, s["cfg"]["cap"], s["cfg"]["world"], s["st"]["k"], s["st"]["fail"], len(s["mem"]), len(s["held"]),
+                    d["st"]["io"] != -1, len(d["mem"]), d["st"]["pc"])
 
         paths = g.edge_cover_paths(ctx.rng, max_paths=700 if ctx.quick else 6000, key=key, max_len=60)
         ctx.extra["histories_from_edge_cover"] = len(paths)
@@ -248,8 +248,7 @@ def run(ctx: Ctx) -> None:
                              "obs": {"shm": real["obs"], "inl": r["inline"]["obs"],
                                      "calls": [{"nlive": c["nlive"], "nheld": c["nheld"], "tab": c["tab"]} for c in real["calls"]],
                                      "heldchk": real["heldchk"],
-                                     "errs": real["errs"] + r["inline"]["errs"] + real["server_died"]
-                                     + (["server did not end"] if real["server_stuck"] else [])}})
+                                     "relerrs": real["relerrs"]}})
     bad = table.judge(ctx, "wire", "ShmXferMonitor", observations)
     for i, clauses in bad:
         r = runs[i]
